@@ -42,7 +42,7 @@ RULE = ("architectures nv,nh,na in 1..3 (quick: covering subset incl. nh != nv, 
         "overwritten in place by the caller and each call repeated right after its own result was overwritten; batches of "
         "65537..131075 rows gathered against the small verified results; six fixed history cases (every operator, every "
         "parameter of every network changed alone) run first; "
-        "NEAR_RANGE regime (six fixed cases run before everything else, 20 (quick) / 80 + every fifth draw of every shape "
+        "NEAR_RANGE regime (six fixed cases run before everything else, 20 (quick) / 48 + every fifth draw of every shape "
         "(thorough) in the random stream, shapes up to 4x4x4, some continued on the same object by an in-place write of a second "
         "near-range setting): amplitude-net U and aux bias (aux), W and hidden bias (hidden) or all four (both, edge) positive "
         "in 12..30, visible bias in -30..-20, scaled by one common factor so that the log of the largest diagonal entry is "
@@ -51,6 +51,15 @@ RULE = ("architectures nv,nh,na in 1..3 (quick: covering subset incl. nh != nv, 
         "auxiliary sums pass log(DBL_MAX) = 709.8 (input_distribution beyond_double_range:* counts them); the oracle forms "
         "sqrt(rho_ii rho_jj) in the log domain, demands finite outputs, and decides Hermitian / PSD on rho * 2^-e; the 1-D "
         "call forms always probe the largest diagonal entry; "
+        "FLAG ENCODINGS: in every evaluation the expand flag is also handed over as np.True_ / 1 (matrix, default-vp, 1-D "
+        "forms; the v != vp matrix forms rotate default / np.True_ / 1) and as np.False_ / 0 (paired, diagonal, 1-D forms), "
+        "same values demanded as with True / False; GLOBAL AUTOGRAD MODES: rho (matrix, paired, diagonal, 1-D, default vp), "
+        "probability and normalization are evaluated again under torch.no_grad(), torch.inference_mode(), "
+        "torch.set_grad_enabled(False) and torch.enable_grad() and must reproduce the verified values (thorough: flag block on "
+        "every second, mode block on every third evaluation, by the recorded aux_seed); TOLERANCES: relations between two "
+        "evaluation paths (diagonal / trace / partial trace / marginal) use 1e-9 + 2.1e-9 (nh + na) <= 1.8e-8 (rigorous bound on "
+        "what torch's thresholded softplus omits; below float32 rounding), sum-versus-sum relations 1e-10, and rho / probability "
+        "/ normalization must be reported in double precision; "
         "a case is (regime, nv, nh, na, parameter draw, history step); "
         "non-trivial := all biases non-zero, amplitude aux bias != 0 and U_mu != 0")
 ASSUMPTIONS = ["torch exp/log/sqrt/atan2/softplus/logsumexp/matmul implement the real functions up to rounding",
@@ -377,8 +386,12 @@ def evaluate(ctx, s, am, ph, case, nontriv, desc, T=None, big=False):
                     {"i": i, "j": j, "single": str(z1), "single expand=False": str(z1f), "matrix": str(Rc[i, j])})
     res = {"s": s, "T": T, "N": N, "Rc": Rc, "mRc": mRc, "amp": amp, "sc": sc, "tolm": tolm, "prob": prob_n, "Z": Zf,
            "E_small": E_small, "E_joint": E_joint, "A": A, "rt": rt, "Rdc": Rdc}
-    flag_encodings(ctx, res, case)
-    grad_modes(ctx, res, case)
+    # quick tier: both blocks in every evaluation.  Thorough tier (thousands of evaluations, and common.run_property adds a
+    # second pass wholly under no_grad): on a deterministic half / third of the evaluations, chosen by the recorded aux_seed
+    if not ctx.thorough or int(case["aux_seed"]) % 2 == 0:
+        flag_encodings(ctx, res, case)
+    if not ctx.thorough or int(case["aux_seed"]) % 3 == 0:
+        grad_modes(ctx, res, case)
     matrix_forms(ctx, res, case, arng)
     batch_mutated_in_place(ctx, res, case, arng)
     if big:
@@ -609,7 +622,7 @@ def large_batches(ctx, res, case, arng):
     vi, vj = T["space"][i], T["space"][j]
     ai = torch.tensor(res["A"][kk], dtype=torch.double)
     ok, out = ctx.call("evaluation on a batch of %d rows" % n, case, lambda: (
-        s.rho(vi, vj, expand=[False, np.False_, 0][n % 3]), s.probability(vi), s.rho(vi, expand=False), s.rho(vi, vi, expand=np.False_),
+        s.rho(vi, vj, expand=False), s.probability(vi), s.rho(vi, expand=False), s.rho(vi, vi, expand=False),
         s.rbm_am.effective_energy(vi), s.rbm_am.effective_energy(vi, ai), s.rbm_ph.effective_energy(vi, ai)))
     if not ok:
         return
@@ -1179,9 +1192,7 @@ def one_case(ctx, nv, nh, na, zero_bias=False, regime="default", ways=(), big=Fa
 def run(ctx):
     # fixed cases that always run first: same-object histories with every mutation operator, then all four in-place ways of
     # rewriting the parameters with batches of more than 65536 rows
-    import os
-    if not os.environ.get("C02_TMP_NOFIXED"):
-        fixed_near_range(ctx)
+    fixed_near_range(ctx)
     fixed_histories(ctx)
     for (nv, nh, na) in [(2, 2, 2), (1, 1, 1), (3, 2, 1)]:
         one_case(ctx, nv, nh, na, ways=WAYS, big=True)
@@ -1200,7 +1211,7 @@ def run(ctx):
             k += 1
     one_case(ctx, 2, 2, 2, zero_bias=True)
     one_case(ctx, 3, 1, 2, zero_bias=True)
-    random_near_range(ctx, 80 if ctx.thorough else 20)
+    random_near_range(ctx, 48 if ctx.thorough else 20)
 
 
 def search(ctx, broken, budget):
@@ -1208,6 +1219,9 @@ def search(ctx, broken, budget):
     import time
     t0 = time.time()
     n0 = len(ctx.failures)
+    random_near_range(ctx, 12)                            # finite results, intermediates beyond the double range
+    if len(ctx.failures) > n0:
+        return ctx.failures[n0]
     for rnd in range(6):
         for (nv, nh, na) in [(a, b, c) for a in range(1, 4) for b in range(1, 4) for c in range(1, 4)]:
             one_case(ctx, nv, nh, na, regime=REGIMES_QUICK[rnd % len(REGIMES_QUICK)], ways=[ALL_OPS[(rnd * 5 + nv + 3 * nh + 9 * na) % len(ALL_OPS)]], big=(rnd == 0))
